@@ -92,6 +92,21 @@ Proof. exact no_panic_craft_from_str_lemma. Qed.
 Theorem no_panic_load_cache : forall dec cfg now file, load_cache dec cfg now file <> Panic.
 Proof. exact no_panic_load_cache_lemma. Qed.
 
+(* the expiry test inside the clean-up uses duration_since (no panicking branch); written with
+   `last_seen + expiry` it would panic on a last_seen near the largest SystemTime a cache file can hold *)
+Theorem no_panic_expiry_test : forall later earlier, st_duration_since later earlier <> Panic.
+Proof. exact st_duration_since_no_panic. Qed.
+
+Theorem expiry_by_addition_refuted :
+  exists cfg now r, a_seen r <= ST_MAX /\ unexpired_by_addition cfg now r = Panic /\ unexpired cfg now r = false.
+Proof. exact expiry_by_addition_refuted_lemma. Qed.
+
+(* str slicing obeys the char-boundary rule: a prefix-stripping variant of str_to_addr panics on a
+   66-byte input with a two-byte character across offset 2 (the code returns an error) *)
+Theorem str_slice_prefix_refuted :
+  slen straddle66 = 66 /\ str_to_addr_prefix_tolerant straddle66 = Panic /\ str_to_addr straddle66 = Err 1.
+Proof. exact str_slice_prefix_refuted_lemma. Qed.
+
 Theorem no_panic_registry_load : forall (A : Type) (parse : string -> option A) f,
   registry_load parse f <> Panic.
 Proof. exact @no_panic_registry_load_lemma. Qed.
